@@ -104,6 +104,8 @@ def build(case):
             res = ("ok", cls)
         except InvalidDefinition as e:
             res = ("invalid", str(e))
+        except Exception as e:  # the class statement may only raise InvalidDefinition
+            res = ("crash", f"{type(e).__name__}: {e}")
     uw = [x for x in w if issubclass(x.category, UserWarning)]  # whatever its wording
     return res, uw
 
@@ -131,6 +133,8 @@ def run_case(case):
     exp = verdict(n, edges, set(case["initial"]), set(case["final"]), case["strict"], has_events=declared, bad_internal=bad_internal, registered=case.get("registered", True))
     labels = ["expected:" + exp[0] + (":" + str(exp[1]) if exp[0] == "invalid" else ":warn" if exp[1] else "")]
     nt = bool(case["final"]) or any(e[0] == e[1] for e in edges) or has_cycle(n, edges) or direction_sensitive(case, edges, exp)
+    if res[0] == "crash":
+        return outcome(False, "C09:wrong-exception-type", f"class statement raised {res[1]} (expected {'InvalidDefinition' if exp[0] == 'invalid' else 'acceptance'}): {short(case)}", labels=labels)
     if exp[0] == "abstract":
         if res[0] != "ok":
             return outcome(False, "C09:abstract-rejected", f"class without states and events raised {res[1]}", labels=labels)
